@@ -166,6 +166,8 @@ def shards(tier):
     out = []
     for cfg in CONFIGS:
         bound = (2 if cfg[0] == 1 else 1) if tier == "quick" else 3
+        if len(cfg) > 3 and tier != "quick":
+            bound = 2       # failing-thread-start configurations: bound 3 multiplies the thorough tier's cost several times
         for pre, dev in shard_prefixes(lambda c: run_one(c, *cfg), 4, bound):
             out.append((cfg, pre, dev, bound))
     return out
